@@ -262,16 +262,30 @@ def build(run):
                     hit = node.func.attr + "()"
                 if isinstance(node, ast.Call) and isinstance(node.func, ast.Name) and node.func.id in ("id", "hash"):
                     hit = node.func.id + "()"
+                # hash data / repr of sub-objects embed raw ids by design: a signature function may descend only through _ufl_signature_data_
+                if isinstance(node, ast.Call) and isinstance(node.func, ast.Attribute) and node.func.attr in ("_ufl_hash_data_", "__hash__", "__repr__"):
+                    hit = node.func.attr + "()"
                 if hit and not (nm == "Label._ufl_signature_data_"):
                     bad.append(f"{nm} reads {hit}")
         # Label: the raw count may only be used when the label is not in the renumbering
         lt = ast.parse(textwrap.dedent(inspect.getsource(C.Label._ufl_signature_data_)))
-        raw = [nd for nd in ast.walk(lt) if isinstance(nd, ast.Attribute) and nd.attr == "_count"]
-        guarded = [nd for nd in ast.walk(lt) if isinstance(nd, ast.If) and "not in renumbering" in ast.unparse(nd.test)]
-        if raw and not guarded:
-            bad.append("Label._ufl_signature_data_ reads _count unconditionally")
+        unguarded = _unguarded_count_reads(lt)
         if bad:
             return violated("signature functions read raw counters: " + "; ".join(bad), replay={"reads": bad}, reproduced=False, backend="ast")
+        if unguarded:
+            # the syntactic guard analysis does not recognise the shape of the code: decide the same contract by execution (bounded):
+            # for a label that IS in the renumbering the signature data must not depend on its raw count
+            outs = set()
+            for cnt in (0, 1, 7, 12345, 10 ** 9):
+                lab = C.Label(cnt)
+                outs.add(repr(lab._ufl_signature_data_({lab: 3})))
+            if len(outs) != 1:
+                return violated("Label._ufl_signature_data_ depends on the raw count of a label that is in the renumbering: " + ", ".join(sorted(outs)),
+                                replay={"outputs": sorted(outs)}, reproduced=True, backend="exec")
+            from ufv.core import bounded_ok
+            return bounded_ok(5, "Label._ufl_signature_data_ executed for 5 raw counts with the label present in the renumbering (the guard of the raw "
+                                 "count read has a shape the AST analysis does not recognise: " + "; ".join(unguarded) + ")",
+                              sample="signature data of a renumbered label is independent of its raw count")
         return proved("ast", vcs=n, sample=f"{n} signature functions read counters only through `renumbering`")
     run.add("frame/signature-functions-read-no-raw-counter", frame, kind="proof")
 
@@ -451,3 +465,84 @@ def build(run):
             return proved("canary")
         return violated("canary refuted", reproduced=True)
     run.add("canary/order-reversal-changes-cmp", canary, kind="canary")
+
+
+def _unguarded_count_reads(tree):
+    """Reads of `_count` that are not dominated by a test establishing that the object is absent from `renumbering`.
+    Recognised guards: `if x not in renumbering: <read>`, `if x in renumbering: ... else: <read>`, the same as conditional expressions,
+    statements following an `if x in renumbering:` whose body always leaves the function, `except KeyError:` after a try that subscripts
+    renumbering, and the default argument of renumbering.get(x, <read>)."""
+    import ast
+
+    def test_kind(t):
+        if isinstance(t, ast.Compare) and len(t.ops) == 1 and isinstance(t.comparators[0], ast.Name) and t.comparators[0].id == "renumbering":
+            if isinstance(t.ops[0], ast.NotIn):
+                return "absent"
+            if isinstance(t.ops[0], ast.In):
+                return "present"
+        if isinstance(t, ast.UnaryOp) and isinstance(t.op, ast.Not):
+            k = test_kind(t.operand)
+            return {"absent": "present", "present": "absent"}.get(k)
+        return None
+
+    def leaves(stmts):
+        return bool(stmts) and isinstance(stmts[-1], (ast.Return, ast.Raise))
+
+    out = []
+
+    def expr(e, absent):
+        if e is None:
+            return
+        if isinstance(e, ast.IfExp):
+            k = test_kind(e.test)
+            expr(e.test, absent)
+            expr(e.body, absent or k == "absent")
+            expr(e.orelse, absent or k == "present")
+            return
+        if isinstance(e, ast.Call) and isinstance(e.func, ast.Attribute) and e.func.attr == "get" and isinstance(e.func.value, ast.Name) \
+                and e.func.value.id == "renumbering" and len(e.args) == 2:
+            expr(e.args[0], absent)
+            expr(e.args[1], True)
+            return
+        if isinstance(e, ast.Attribute) and e.attr == "_count" and not absent:
+            out.append(f"line {e.lineno}: {ast.unparse(e)}")
+        for ch in ast.iter_child_nodes(e):
+            if isinstance(ch, ast.expr):
+                expr(ch, absent)
+            elif isinstance(ch, (ast.comprehension, ast.keyword)):
+                for c2 in ast.iter_child_nodes(ch):
+                    if isinstance(c2, ast.expr):
+                        expr(c2, absent)
+
+    def block(stmts, absent):
+        for k_, st in enumerate(stmts):
+            if isinstance(st, ast.If):
+                k = test_kind(st.test)
+                expr(st.test, absent)
+                block(st.body, absent or k == "absent")
+                block(st.orelse, absent or k == "present")
+                if k == "present" and leaves(st.body) and not st.orelse:
+                    absent = True
+                continue
+            if isinstance(st, ast.Try):
+                block(st.body, absent)
+                subs = any(isinstance(n_, ast.Subscript) and isinstance(n_.value, ast.Name) and n_.value.id == "renumbering" for b in st.body for n_ in ast.walk(b))
+                for h in st.handlers:
+                    is_key = h.type is not None and "KeyError" in ast.unparse(h.type)
+                    block(h.body, absent or (subs and is_key))
+                block(st.orelse, absent)
+                block(st.finalbody, absent)
+                continue
+            if isinstance(st, (ast.FunctionDef, ast.For, ast.While, ast.With)):
+                for f_ in ("iter", "test"):
+                    if hasattr(st, f_):
+                        expr(getattr(st, f_), absent)
+                block(getattr(st, "body", []), absent)
+                block(getattr(st, "orelse", []), absent)
+                continue
+            for ch in ast.iter_child_nodes(st):
+                if isinstance(ch, ast.expr):
+                    expr(ch, absent)
+    fn = tree.body[0]
+    block(fn.body, False)
+    return out
